@@ -27,6 +27,8 @@ PROPS = {
                 explanation="bounded enumeration of operator sequences x parenthesisations x blank layouts against an independent precedence-climbing evaluator; proved components: op() priority table, skip bookkeeping of Parser::{count_skip,skip,eat}, operation()/value()/call_arguments() skip contracts"),
     "C08": dict(units=["DISPLAYCORE"], standin=True, level="exploration",
                 explanation="bounded read-back contract over a grid of values x limits x exponent limits; proved core: the emit digit step is exact long division (digit <= 9, remainder stays below the denominator) and digits() is the decimal magnitude"),
+    "C11": dict(units=["POWERS", "RAT", "COMPOUND", "EVALOPS", "LEXER", "PARSER", "GRAMMAR", "FROMSTR", "DISPLAYCORE"], standin=True, level="proof",
+                explanation="absence of overflow / failed assertion (former debug_assert!) / unwrap / out-of-bounds in every function under contract, under the stated bounds; error spans are token boundaries (LEXER + PARSER); eval() driver, Db::lookup, Display and the CLI are a bounded token-soup stand-in"),
 }
 
 COMMON_TRUST = [
